@@ -12,7 +12,9 @@
      "supplies as context the true chain of ancestors and, for path tracking, the index path"
           C08_context_true
      "all sequences of visits by several visitor classes and instances (dispatch cache)"
-          C08_cache_lookups, C08_cache_visits, C08_cache_shared_refuted (what the tie fact protects)
+          C08_cache_lookups, C08_cache_visits, C08_cache_shared_refuted (what the tie fact protects),
+          C08_names_memo_refuted (a handler set is per visitor class, under ITS prefix: what state shared
+          between visitor classes in _get_method would break; tied by correspondence only)
      "The default transformer returns a tree equal to the input"   C08_copy_total, C08_copy_equal(_refuted/_partial)
      "prints to the same text"                                      C08_copy_print(_refuted/_partial)
      "carries the same positions"                                   C08_copy_layout  (+ C08_copy_drops_names)
@@ -25,7 +27,24 @@ From Coq Require Import Sorted.
 Lemma cache_scope_tie : gen_cache_scope = CachePerInstanceByType.
 Proof. vm_compute. reflexivity. Qed.
 
+Lemma names_not_memoised : gen_getmethod_shared_state = false.
+Proof. vm_compute. reflexivity. Qed.
+
+Lemma children_is_pure : gen_children_is_pure = true.
+Proof. vm_compute. reflexivity. Qed.
+
+(* depends on cache_scope_tie and names_not_memoised *)
 Lemma code_cache_not_shared : code_cache_shared = false.
+Proof. unfold code_cache_shared. rewrite cache_scope_tie, names_not_memoised. reflexivity. Qed.
+
+Lemma code_children_is_pure : code_children_pure = true.
+Proof. exact children_is_pure. Qed.
+
+(* all tie obligations of C08 on generated data, as one list *)
+Definition C08_ties : list bool :=
+  [ match gen_cache_scope with CachePerInstanceByType => true | CacheOther => false end;
+    negb gen_getmethod_shared_state; gen_children_is_pure; negb code_cache_shared; code_children_pure ].
+Lemma C08_ties_ok : forallb (fun b => b) C08_ties = true.
 Proof. vm_compute. reflexivity. Qed.
 
 (* ---------------------------------------------------------------- (a) traversal *)
@@ -105,6 +124,12 @@ Definition C08_cache_visits_statement : Prop :=
 Definition C08_cache_shared_statement : Prop :=
   forall (Hof : nat -> list cls) (h : list op),
     fst (run_history true Hof h []) = map (expected_bound Hof) h.
+
+(* what would happen with candidate method names memoised per node class for all visitor classes
+   (the visitor_method_prefix of the first visitor frozen in) *)
+Definition C08_names_memo_statement : Prop :=
+  forall (Vof : nat -> vclass) (h : list op),
+    run_memo Vof h [] = map (fun o => match o with Visit i c => lookup_own (Vof i) c end) h.
 
 (* ---------------------------------------------------------------- (c) default transformer *)
 
@@ -217,6 +242,15 @@ Theorem C08_cache_shared_refuted : ~ C08_cache_shared_statement.
 Proof.
   intros H.
   specialize (H (fun i => match i with 0 => [CTerm] | _ => [CWord] end) [Visit 0 CWord; Visit 1 CWord]).
+  vm_compute in H. discriminate.
+Qed.
+
+(* a visit_word visitor, then an on_word visitor (prefix 1), each handed a Word *)
+Theorem C08_names_memo_refuted : ~ C08_names_memo_statement.
+Proof.
+  intros H.
+  specialize (H (fun i => match i with 0 => mkVC 0 [(0, CWord)] | _ => mkVC 1 [(1, CWord); (0, CTerm)] end)
+                [Visit 0 CWord; Visit 1 CWord]).
   vm_compute in H. discriminate.
 Qed.
 
@@ -345,6 +379,7 @@ Print Assumptions C08_context_true.
 Print Assumptions C08_cache_lookups.
 Print Assumptions C08_cache_visits.
 Print Assumptions C08_cache_shared_refuted.
+Print Assumptions C08_names_memo_refuted.
 Print Assumptions C08_copy_total.
 Print Assumptions C08_copy_equal_refuted.
 Print Assumptions C08_copy_equal_partial.
